@@ -34,6 +34,26 @@
 (* items, then count / access / list / iterate the same object", "the same   *)
 (* access twice, consuming the first result in between", two interleaved     *)
 (* iterators and a query between two next() calls, for every container.     *)
+(*                                                                         *)
+(* The FILE is a dimension too: the histories run on repository files and   *)
+(* on a sample of the images the writers of the other properties'           *)
+(* specifications generate (vf/c10_writers.py: ElfImage - several sections  *)
+(* under one name; LineProgram - DW_LNE_define_file, two units; DieTree -    *)
+(* mixed unit contexts; LocRange - DWARF5 list sections with offset tables   *)
+(* and DW_FORM_loclistx / DW_FORM_rnglistx; SymHash; thorough: Dynamic,      *)
+(* Notes, versions; DWARF-level contents are put into an ELF container by    *)
+(* spec/ReadelfEnvelope.tla).  Calls and patterns that need those features:  *)
+(*   name_lookup   the three lookups by section name over one lazily built   *)
+(*                 map; PN: name, other name (later / missing), name again   *)
+(*   indexed_die   lookup of an entry whose parsing consults the offset      *)
+(*                 table of a list section; PX: between the next() calls of  *)
+(*                 the list generators (a live cursor in that section)       *)
+(*   die_count     a walk over all entries; PW: a list generator started on  *)
+(*                 warm caches (a fresh object parses while it scans)        *)
+(*   line_tables   the header tables of a line-number program; PL: after n   *)
+(*                 requests for the program                                  *)
+(*   iter_list_CUs / iter_CU_range_lists_ex   DWARF5 list sections block by  *)
+(*                 block (headers with offset tables; raw lists of a block)  *)
 (***************************************************************************)
 EXTENDS Integers, Sequences, FiniteSets, TLC, Json, CSV, IOUtils
 
@@ -54,10 +74,24 @@ Queries == {"num_sections", "section_by_name", "get_section", "section_index", "
             \* a further DWARFInfo from the same file object (the contents of its sections: relocation is applied once per view);
             \* b even: with the default flag, next to the first view; b odd: with relocate_dwarf_sections = FALSE, before or
             \* after the relocating view exists (the flag of an earlier request must not stick)
-            "dwarf_again"} \cup HeldQueries
+            "dwarf_again",
+            \* the three lookups by section name (a: which name - the driver lists the names SEVERAL sections bear first, then a name
+            \* no section has, then others; b: get_section_by_name / get_section_index / has_section): they share one lazily built map
+            "name_lookup",
+            \* an entry that carries an attribute in an index form (a: DW_FORM_rnglistx, DW_FORM_loclistx, addrx*, strx* as the file
+            \* has them; b: which entry), looked up by offset: parsing it consults the offset table of ANOTHER section
+            "indexed_die",
+            \* the directory / file tables of a line-number program header after the program was run (DW_LNE_define_file adds to them)
+            "line_tables",
+            \* a walk over every entry of every unit (afterwards the entry caches are complete)
+            "die_count"} \cup HeldQueries
 GenKinds == {"iter_sections", "iter_segments", "iter_symbols", "iter_tags", "iter_notes", "iter_CUs", "iter_DIEs",
              "iter_children", "iter_siblings", "iter_location_lists", "iter_range_lists", "iter_relocations",
-             "iter_subsections", "iter_versions", "line_entries", "held_iter"}
+             "iter_subsections", "iter_versions", "line_entries", "held_iter",
+             \* DWARF5 list sections block by block: the block headers with their offset tables (a even: .debug_rnglists, a odd:
+             \* .debug_loclists), and the raw lists of block a
+             "iter_list_CUs", "iter_CU_range_lists_ex"}
+ListKinds == {"iter_location_lists", "iter_range_lists", "iter_list_CUs", "iter_CU_range_lists_ex"}
 Streams == {"elf", "dwarf", "all"}
 Wheres == {"zero", "mid", "end"}
 Ix == 0..(K - 1)
@@ -82,6 +116,26 @@ P3 == {<<H("start", k, a, b, 1, ""), H("advance", k, a, b, 1, ""), H("query", q,
 P4 == {<<H("query", q, a, b, 0, ""), x, H("query", q, a, b, 0, "")>> :
         q \in Queries, a \in PatIx, b \in PatIx,
         x \in {H("perturb", "all", 0, 0, 0, w) : w \in Wheres} \cup {H("query", "section_by_name", 1, 1, 0, ""), H("query", "die_at", 0, 1, 0, "")}}
+\*  PN   lookups by name: a name, then another name (or the same through another call), then the first name again through any of
+\*       the three calls - on files in which several sections bear one name the map must have made the same choice every time,
+\*       however far an earlier lookup (of a later name, of a name nobody has) had to look
+NameIx == 0..3
+NameCalls == 0..2
+NQ(a, b) == H("query", "name_lookup", a, b, 0, "")
+PN == {<<NQ(a1, b1), NQ(a2, b2), NQ(a1, b3)>> : a1 \in NameIx, a2 \in NameIx, b1 \in NameCalls, b2 \in NameCalls, b3 \in NameCalls}
+\*  PX   a list generator (a live cursor in .debug_rnglists / .debug_loclists) with lookups of not yet parsed entries whose
+\*       attributes are in index forms - resolved through the offset tables of those very sections - between its next() calls
+XQ(c, b) == H("query", "indexed_die", c, b, 0, "")
+PX == {<<H("start", k, a, 0, 1, ""), H("advance", k, a, 0, 1, ""), XQ(c, b), H("advance", k, a, 0, 1, ""), XQ(c, b2),
+         H("advance", k, a, 0, 1, ""), H("advance", k, a, 0, 1, "")>> :
+        k \in ListKinds, a \in PatIx, c \in PatIx, b \in 0..2, b2 \in 0..2}
+\*  PW   a list generator started on WARM caches (every entry parsed before) - the truth is the generator on a fresh object, whose
+\*       own scan of the entries parses them, index forms included, while it runs
+PW == {<<H("query", "die_count", 0, 0, 0, ""), H("start", k, a, 0, 1, ""), H("advance", k, a, 0, 1, ""), H("advance", k, a, 0, 1, ""),
+         H("advance", k, a, 0, 1, "")>> : k \in ListKinds, a \in PatIx}
+\*  PL   the line-number program of a unit asked for again and again (the header tables must not grow): n requests, then the tables
+PL == {[i \in 1..(n + 1) |-> IF i <= n THEN H("query", "line_program", a, 0, 0, "") ELSE H("query", "line_tables", a, 0, 0, "")] :
+        a \in PatIx, n \in 0..3}
 \* ---- held containers (object lifetime)
 HeldIx == 0..(HK - 1)
 HQ(q, a, b) == H("query", q, a, b, 0, "")
@@ -108,7 +162,7 @@ PH3 == {<<HStart(a, 1), HAdv(a, 1), HQ(q, a, b), HAdv(a, 1), HAdv(a, 1), HAdv(a,
 PH4 == {<<HQ(q, a, b), HQ(q, a, b)>> : q \in {"held_get", "held_first"}, a \in HeldIx, b \in {0, 1, 2}}
        \cup {<<HQ(q, a, b), HQ(q2, a, b2), HQ(q, a, b)>> :
                q \in {"held_get", "held_first"}, a \in HeldIx, b \in {0, 1}, q2 \in HeldQueries, b2 \in {0, 1}}
-PatternSet == P1 \cup P2 \cup P3 \cup P4 \cup PH2 \cup PH3 \cup PH4 \cup PH5
+PatternSet == P1 \cup P2 \cup P3 \cup P4 \cup PN \cup PX \cup PW \cup PL \cup PH2 \cup PH3 \cup PH4 \cup PH5
 
 Init == /\ gens = <<>> /\ pick = ""
         /\ IF Patterns THEN hist \in PatternSet ELSE hist = <<>>
@@ -161,6 +215,12 @@ HeldSameObject ==
   (Patterns /\ \E i \in 1..Len(hist) : hist[i].op = "abandon") =>
      \A i \in 1..Len(hist) : hist[i].op \in {"query", "start", "advance"} =>
         /\ hist[i].name \in (HeldQueries \cup {"held_iter"}) /\ hist[i].a = hist[1].a
+\* a revisiting pattern really revisits: a history of name lookups ends with the name it began with, and a history that ends with
+\* the header tables of a line-number program, after nothing but requests for line-number programs, asked only for that unit's before
+Revisits ==
+  Patterns => /\ (hist[1].name = "name_lookup" /\ Len(hist) = 3 /\ hist[3].name = "name_lookup" => hist[3].a = hist[1].a)
+              /\ (hist[Len(hist)].name = "line_tables" /\ (\A i \in 1..Len(hist) : hist[i].name \in {"line_program", "line_tables"}) =>
+                    \A i \in 1..Len(hist) : hist[i].op = "query" /\ hist[i].a = hist[Len(hist)].a /\ hist[i].b = hist[Len(hist)].b)
 \* the specification of every answer: a function of the query alone (history-free by construction);
 \* the k-th item of a generator is Item(kind, a, b, k)
 \* one emission per simulated behaviour: when the history is complete and ends with the final repositioning
